@@ -31,20 +31,20 @@ pats = [t for t in toks if t not in flags]
 assert len(pats) == 1, "one pattern expected in the manager ACL: %r" % (toks,)
 
 cm = rd("src/cache_manager.cc")
-m = re.search(r"CacheManager::WellKnownUrlPathPrefix\(\)\s*\{\s*static const SBuf prefix\(\"([^\"\\]*)\"\);", cm)
+m = re.search(r"CacheManager::WellKnownUrlPathPrefix\(\)\s*\{[^}]*?SBuf\s+\w+\s*\(\s*\"([^\"\\]*)\"\s*\)", cm)
 assert m, "WellKnownUrlPathPrefix literal"
 prefix = m.group(1)
 
 
-m_all = re.search(r'static const SBuf allAction\("([^"\\]*)"\)', cm)
+m_all = re.search(r'SBuf\s+allAction\s*\(\s*"([^"\\]*)"\s*\)', cm)
 assert m_all, "allAction literal"
-m_idx = re.search(r'static const SBuf indexReport\("([^"\\]*)"\)', cm)
+m_idx = re.search(r'SBuf\s+indexReport\s*\(\s*"([^"\\]*)"\s*\)', cm)
 assert m_idx, "indexReport literal"
 m_fc = re.search(r'CharacterSet\("mgr-field", "([^"\\]*)"\)\.complement\(\)', cm)
 assert m_fc, "mgr-field character set"
 
 it = rd("src/internal.cc")
-m_ip = re.search(r'static const SBuf InternalPfx\("([^"\\]*)"\)', it)
+m_ip = re.search(r'SBuf\s+InternalPfx\s*\(\s*"([^"\\]*)"\s*\)', it)
 assert m_ip, "InternalPfx literal"
 
 out = ["@@FILE Mgr_gen.v",
